@@ -200,6 +200,25 @@ impl Space for Algebra {
                 if cnt != Outcome::Val(num_dump(rab.toks.len() as f64)) {
                     self.report(sink, &format!("{}count-disagrees", marker), &feat, case.clone(), num_dump(rab.toks.len() as f64), format!("{:?}", cnt));
                 }
+                // the XPath 1.0 idioms for intersection and difference: A[count(. | B) = count(B)] is A ∩ B,
+                // A[count(. | B) != count(B)] is A \ B (a union and a count evaluated with every node of A as context)
+                if marker.is_empty() && (j <= i + 6 || i <= 2) {
+                    for (op, want_in) in [("=", true), ("!=", false)] {
+                        let q = format!("({})[count(. | {}) {} count({})]", strs[i], strs[j], op, strs[j]);
+                        sink.count("transitions", 1);
+                        match eval_nodes(&fx, &q) {
+                            Ok(r) => {
+                                sink.count("validated", 1);
+                                let sb = set_of(rb);
+                                let want: Vec<String> = ra.toks.iter().filter(|t| sb.contains(*t) == want_in).cloned().collect();
+                                if r.toks != want {
+                                    self.report(sink, if want_in { "intersection-idiom-wrong" } else { "difference-idiom-wrong" }, &feat, format!("{} on {}", q, fx.text), format!("{:?}", want), format!("{:?}", r.toks));
+                                }
+                            }
+                            Err(e) => self.report(sink, "intersection-idiom-fails", &feat, format!("{} on {}", q, fx.text), "a node-set".into(), e),
+                        }
+                    }
+                }
                 // positional filters count in document order
                 if j <= i + 3 {
                     for (n, pick) in [("1", rab.toks.first()), ("2", rab.toks.get(1)), ("last()", rab.toks.last())] {
@@ -258,17 +277,17 @@ impl Check for C07C {
     }
     fn prepare(&self, _stage: &str, tier: Tier, _input: &[String]) -> Box<dyn Space> {
         let quick = tier == Tier::Quick;
-        let docs = if quick { let mut v = xgen::rich_docs(); v.extend(xgen::skeleton_docs(3, true)); v } else { xgen::docs(true) };
-        Box::new(Algebra { docs, pool: pool(), triples: tier.pick(8, 14) })
+        let docs = if quick { let mut v = xgen::rich_docs(); v.extend(xgen::skeleton_docs(3, true)); v } else { xgen::docs(false) };
+        Box::new(Algebra { docs, pool: pool(), triples: tier.pick(8, 20) })
     }
     fn case_cap(&self, tier: Tier) -> f64 {
         tier.pick(60.0, 240.0)
     }
     fn meta(&self) -> Meta {
         Meta {
-            rule: "for every document: every path of a pool of ~40 (all 13 axes from every element, paths reaching one node from several context nodes, operands in reverse document order, attribute / text / comment / PI selections, filter steps) is evaluated by the implementation and checked for: no node twice (identity = node kind + XmlNode::id()), document order (position in the harness's own reference walk; order among one element's attributes open). Every ORDERED PAIR (A, B): A|B equals the set union of A and B, is in document order, A|B = B|A, A|A = A, count(A|B) <= count(A)+count(B) and equals the size of the node-set, (A|B)[1], [2], [last()] pick the first, second and last node in document order. Every TRIPLE of the first t paths: (A|B)|C = A|(B|C). No reference evaluator is involved. Non-trivial = a non-empty node-set.",
-            bounds_quick: "8 hand-picked documents + skeletons <= 3 elements with one decoration; all ordered pairs of the pool; triples of the first 8 paths",
-            bounds_thorough: "8 + 125 documents (skeletons <= 4 elements); all ordered pairs; triples of the first 14 paths",
+            rule: "for every document: every path of a pool of ~40 (all 13 axes from every element, paths reaching one node from several context nodes, operands in reverse document order, attribute / text / comment / PI selections, filter steps) is evaluated by the implementation and checked for: no node twice (identity = node kind + XmlNode::id()), document order (position in the harness's own reference walk; order among one element's attributes open). Every ORDERED PAIR (A, B): A|B equals the set union of A and B, is in document order, A|B = B|A, A|A = A, count(A|B) <= count(A)+count(B) and equals the size of the node-set, (A|B)[1], [2], [last()] pick the first, second and last node in document order; for pairs near the diagonal A[count(.|B) = count(B)] is the intersection and A[count(.|B) != count(B)] the difference of the two sets, in A's order. Every TRIPLE of the first t paths: (A|B)|C = A|(B|C). No reference evaluator is involved. Non-trivial = a non-empty node-set.",
+            bounds_quick: "10 hand-picked documents + skeletons <= 3 elements with one decoration; all ordered pairs of the pool; triples of the first 8 paths",
+            bounds_thorough: "10 + 419 documents (skeletons <= 5 elements, bare and with one decoration); all ordered pairs; triples of the first 20 paths",
             assumptions: &["node identity is (kind, XmlNode::id()); namespace nodes and DTD-defaulted attributes share identities (known finding under C05) and are reported under their own signature"],
             unbounded_total: false,
         }
